@@ -992,12 +992,11 @@ func (iter *wrapImproperIterator) Next() bool {
 			// Whitespace either fail the test or were removed earlier,
 			// so there is no need to take special care with the definition
 			// of "consecutive".
-			if FlexContainerT.IsInstance(iter.box) {
-				// The display value of a flex item must be "blockified", see
-				// https://www.w3.org/TR/css-flexbox-1/#flex-items
-			} else {
-				iter.improper = append(iter.improper, child)
-			}
+			// The display value of a flex item should be "blockified", see
+			// https://www.w3.org/TR/css-flexbox-1/#flex-items
+			// Until then, it is wrapped in an anonymous table like in any
+			// other container, instead of being discarded with its content.
+			iter.improper = append(iter.improper, child)
 		}
 	}
 
